@@ -29,3 +29,9 @@ def boomkey(value):
     if value == "BOOM":
         raise KeyError("datatype failure: %r" % (value,))
     return value
+
+
+def Wrap(section):
+    """A second section datatype whose dotted name differs from `wrap` only in letter case (datatype names found
+    by import are case-sensitive)."""
+    return Wrapped(("Wrap", section))
